@@ -124,6 +124,21 @@ theorem C11_first_best_in_lattice {segs : List Seg} {ls : List Link} (h : checkF
     ∃ ls, Path L L.start ls L.final ∧ instances L L.start ls = segs :=
   checkFirstBest_sound h
 
+/-- **C11, first-best in the lattice (decision).** On a well-formed lattice the search the driver runs
+decides the clause: it finds a path exactly when the segmentation is the instance sequence of some
+start→end path — so a "not found" verdict on the implementation's lattice is a proof that the first-best
+segmentation is not in the lattice. -/
+theorem C11_first_best_decided (ok : LatticeOK G L) (segs : List Seg) :
+    firstBestB L segs = true ↔ FirstBestInLattice L segs := by
+  unfold firstBestB
+  constructor
+  · intro h
+    obtain ⟨ls, hls⟩ := Option.isSome_iff_exists.1 h
+    exact ⟨ls, findSegPath_sound _ _ _ _ hls⟩
+  · rintro ⟨ls, hp, hi⟩
+    exact findSegPath_complete ls L.start segs _ hp hi
+      (by have := path_length_le ok hp ok.endpoints.1; omega)
+
 /-- **C11, cache.** A lattice request that returned an object, repeated at the same frame count
 (no new audio), returns the same object and leaves the cache unchanged. -/
 theorem C11_cache_same_object (c : Cache) (frame : Nat) (b b' : Bool) (id : Nat)
@@ -164,7 +179,8 @@ example : ∃ q, Reach exG exG.start [0, 1, 3] q :=
 -- a first-best segmentation on a path, and one that is not accepted (wrong boundary)
 example : checkFirstBest exL [⟨0, 0, 1⟩, ⟨1, 2, 3⟩, ⟨2, 4, 9⟩]
     [⟨1, 6, 0, -5⟩, ⟨6, 5, 1, -10⟩, ⟨5, 2, 3, -7⟩, ⟨2, 0, 10, -40⟩] = true := by decide +kernel
-example : findSegPath exL 9 exL.start [⟨0, 0, 1⟩, ⟨1, 2, 3⟩, ⟨2, 4, 8⟩] = none := by decide +kernel
+example : firstBestB exL [⟨0, 0, 1⟩, ⟨1, 2, 3⟩, ⟨2, 4, 9⟩] = true ∧ firstBestB exL [⟨0, 0, 1⟩, ⟨1, 2, 3⟩, ⟨2, 4, 8⟩] = false := by
+  decide +kernel
 
 -- a cycle, a dangling node and a time gap are rejected
 example : latticeOKB exG { exL with links := exL.links ++ [⟨2, 5, 9, -1⟩] } = false := by decide +kernel
